@@ -116,6 +116,7 @@ def run(ctx):
         ctx.obligations.append(dict(name="Props/C04 theorems", ok=False, why="theorem list missing"))
     kvh = C.build_harness("asan")
     rng = ctx.rng
+    diffs = C.unit_correspondence(ctx, kvh, C.gen_ops("gen_io.py", ctx.seed, 1 if ctx.quick else 8, prefixes=('read', 'read_as', 'detect_format')), "readers")
     groups = []
     for i in range(16 if ctx.quick else 150):
         kind = rng.choice(["dna", "rna", "protein"])
@@ -175,7 +176,8 @@ def run(ctx):
             ctx.sample(dict(records=ref.records, presentation=alts[0].intext[:300]))
     for why, rep in fails[:5]:
         ctx.violation(why, dict(kind="oracle", detail=rep))
-    if not ok and not fails:
+    C.report_diffs(ctx, diffs, fails, "readers")
+    if not ok and not fails and not diffs:
         ctx.violation("proof obligations of C04 no longer check", dict(kind="proof", broken=[o for o in ctx.obligations if not o["ok"]],
                                                                         log=getattr(ctx, "build_errors", "")[-3000:]), no_input=True)
     return ctx.finish(LEVEL, CHECKER)
